@@ -3,7 +3,7 @@
 ID=$1; shift
 cd /repo || exit 2
 git diff --quiet || { echo "/repo has uncommitted changes"; exit 2; }
-git apply /verif/seeded/$ID/patch.diff || { echo "patch does not apply"; exit 2; }
+P=/verif/seeded/$ID/patch.diff; [ -f /verif/seeded/$ID/patch.rebased.diff ] && P=/verif/seeded/$ID/patch.rebased.diff; git apply $P || { echo "patch does not apply"; exit 2; }
 for P in "$@"; do
   /verif/bin/govc check -out /tmp/try-$ID $P > /tmp/try-$ID-$P.log 2>&1; rc=$?
   echo "== $ID vs $P: exit=$rc $(grep -c '^VIOLATION' /tmp/try-$ID-$P.log) violations"
